@@ -73,6 +73,13 @@ def run(tier="quick", seed=0):
             GammaPriorConcentrationSampler(a, b, rng=spy).sample(1.0, 0, 0)
             if [e[0] for e in spy.log] != ["standard_gamma"] or abs(spy.log[0][1][0] - a) > 1e-12:
                 problems.append("K=0: expected one Gamma(a) draw, got %s" % spy.log)
+    # generators (PCG64 seeds) for which the raw Gamma(0.01) draw of the K = 1 branch underflows to exactly 0.0: the clamp must still give a usable value
+    for seed_ in (1551, 1949, 6369):
+        cases += 1
+        spy = Spy(np.random.PCG64(seed_))
+        v = GammaPriorConcentrationSampler(0.01, 0.01, rng=spy).sample(1.0, 1, 1)
+        if not (v >= 1e-10 and math.isfinite(math.log(v))):
+            problems.append("K=1, PCG64(%d): raw gamma draw %r, new concentration %r (log alpha not finite)" % (seed_, [e for e in spy.log if e[0] == "standard_gamma"][0][2], v))
     # generators for which the Gamma(0.01) prior draw underflows to exactly 0.0 (finding F12): the result must still be a usable concentration
     for seed_ in (1022, 2494, 6536):
         cases += 1
